@@ -84,8 +84,9 @@ def cfgs(tier):
 
 def run(tier):
     v = common.Verdict(PID, tier, "model_checking")
-    b = common.build(need_inproc=False)
+    b = common.build()
     cs = cfgs(tier)
+    vocab_fields, table_drift = l3.vocabulary_fields(b)
     rp = l3.Replay(b, v, cs, "checks.c01:judge", variants=2 if tier == "quick" else 3)
     cov = l3.EdgeCoverage(rp.sink)
     dump = l3.grammar_dump()
@@ -97,12 +98,17 @@ def run(tier):
           "GMKinds": '{"plain","email","num","bool","dollar","date","oid","b64","nsname"}'}
     plan = [("RedactorEW", {}, rp.sink),
             ("RedactorGM", dict(gm, GMDepth="0", GMKinds=allkinds), cov.sink),      # the seeds: every grammar edge, every leaf kind
-            ("RedactorGM", dict(gm, GMSeeds="{}"), cov.sink)]                       # bounded walk
+            ("RedactorGM", dict(gm, GMSeeds="<< >>"), cov.sink),                       # bounded walk
+            # every non-$ word of the implementation's CURRENT operator tables used as a user field name
+            ("RedactorGM", dict(gm, GMSeeds="<< >>", GMDepth="4", GMWide="0", GMFields=vocab_fields, GMKinds='{"plain","num"}',
+                                GMSlots='{"filter","documents","update","pipeline"}'), cov.sink)]
     if tier == "thorough":
         plan = [("RedactorEW", {}, rp.sink),
                 ("RedactorGM", dict(gm, GMDepth="0", GMKinds=allkinds), cov.sink),
-                ("RedactorGM", dict(gm, GMSeeds="{}", GMDepth="7", GMMaxFld="2", GMMaxArr="2", GMTail="2"), cov.sink),
-                ("RedactorGM", dict(gm, GMSeeds="{}", GMDepth="5", GMWide="2", GMTail="2"), cov.sink)]
+                ("RedactorGM", dict(gm, GMSeeds="<< >>", GMDepth="7", GMMaxFld="2", GMMaxArr="2", GMTail="2"), cov.sink),
+                ("RedactorGM", dict(gm, GMSeeds="<< >>", GMDepth="5", GMWide="2", GMTail="2"), cov.sink),
+                ("RedactorGM", dict(gm, GMSeeds="<< >>", GMDepth="5", GMWide="0", GMFields=vocab_fields, GMKinds='{"plain","num","bool","email"}',
+                                    GMSlots='{"filter","documents","update","pipeline","updates","deletes"}'), cov.sink)]
     for mod, defs, sink in plan:
         t = l3.generate(mod, mod + ".cfg", cs, defs, sink, timeout=3000)
         if not t.ok:
@@ -116,7 +122,7 @@ def run(tier):
                   "grammar_edges_total": len(all_edges), "grammar_edges_exercised": len(all_edges & cov.seen),
                   "grammar_edges_not_reached": ["%s.%s" % e for e in missing[:40]],
                   "lines_without_output": rp.extra.get("no_output", 0), "crashed_lines": rp.crashes, "crash_samples": rp.crash_samples[:2],
-                  "grammar_seed_paths": nseeds,
+                  "grammar_seed_paths": nseeds, "operator_table_drift": table_drift[:20],
                   "rule": "cases = states of RedactorGM (paths through spec/MongoGrammar.tla, depth %s, one deviation from the representative keys, "
                           "labelled sibling elements/fields) and RedactorEW (line classes x slots); each concretised %d times (ASCII, Unicode, e-mail, "
                           "'$' inside, digits, escapes, long) and run under every flag set; non-trivial = at least one `user` leaf (or the client "
